@@ -124,6 +124,16 @@ HER = """	if res.NumFields() > 1 {
 		return false, errors.New("ETOOMANYERRORS")
 	}
 """
+
+IMPG = """	vals := strings.Fields(strings.ToLower(s[2:]))
+	if len(vals) == 0 {
+		return nil
+	}
+	if vals[0] != importTag {
+		return nil
+	}
+	return vals
+"""
 # (id, kind S=semantic H=harmless, item names, file, old, new, expected coverage value prefix)
 MUTANTS = [
     ("joinArgs-S1 b before a", "S", ["joinArgs"], "sh/cmd.go", JA, "\tout := make([]string, 0, len(a)+len(b))\n\tout = append(out, b...)\n\treturn append(out, a...)\n", "differs"),
@@ -223,6 +233,13 @@ MUTANTS = [
     ("signature-S5 hasVoidReturn counts fields, nil list dereferenced away", "S", ["signature"], "parse/parse.go", "\treturn res.NumFields() == 0\n", "\treturn res.NumFields() <= 1\n", "differs"),
     ("signature-H1 context test as one condition", "H", ["signature"], "parse/parse.go", HCP, "\tif pkg.Name != \"context\" || sel.Sel.Name != \"Context\" {\n\t\treturn false, nil\n\t}\n\tif n := len(param.Names); n >= 2 {\n\t\treturn false, errors.New(\"more than one context parameter\")\n\t}\n\treturn true, nil\n", "proved"),
     ("signature-H2 error test first, other messages", "H", ["signature"], "parse/parse.go", HER, "\tif n := res.NumFields(); n >= 2 {\n\t\treturn false, errors.New(\"too many results\")\n\t}\n\tret := res.List[0]\n\tif len(ret.Names) >= 2 {\n\t\treturn false, errors.New(\"too many names\")\n\t}\n", "proved"),
+    ("importTag-S1 first comment of the group instead of the last", "S", ["importTag"], "parse/parse.go", "s := comments.List[len(comments.List)-1].Text", "s := comments.List[0].Text", "differs"),
+    ("importTag-S2 tag compared without lower-casing", "S", ["importTag"], "parse/parse.go", IMPG, IMPG.replace("strings.Fields(strings.ToLower(s[2:]))", "strings.Fields(s[2:])"), "differs"),
+    ("importTag-S3 tag accepted as a prefix", "S", ["importTag"], "parse/parse.go", IMPG, IMPG.replace("vals[0] != importTag", "!strings.HasPrefix(vals[0], importTag)"), "differs"),
+    ("importTag-S4 trailing comment wins over the doc comment", "S", ["importTag"], "parse/parse.go", "\tif len(leadingVals) > 0 {\n\t\tvals = leadingVals\n\t\tif len(trailingVals) > 0 {\n\t\t\tlog.Println(\"warning:\", importTag, \"specified both before and after, picking first\")\n\t\t}\n\t} else if len(trailingVals) > 0 {\n\t\tvals = trailingVals\n\t}", "\tif len(trailingVals) > 0 {\n\t\tvals = trailingVals\n\t} else if len(leadingVals) > 0 {\n\t\tvals = leadingVals\n\t}", "differs"),
+    ("importTag-S5 extra words ignored instead of rejected", "S", ["importTag"], "parse/parse.go", "\tcase 2:\n\t\t// also has an alias\n\t\treturn path, vals[1], true\n\tdefault:", "\tdefault:\n\t\t// also has an alias\n\t\treturn path, vals[1], true\n\tcase 0:", "differs"),
+    ("importTag-H1 tests merged, locals renamed", "H", ["importTag"], "parse/parse.go", IMPG, "\twords := strings.Fields(strings.ToLower(s[2:]))\n\tif len(words) == 0 || words[0] != importTag {\n\t\treturn nil\n\t}\n\treturn words\n", "proved"),
+    ("importTag-H2 if chain instead of the switch", "H", ["importTag"], "parse/parse.go", "\tswitch len(vals) {\n\tcase 1:\n\t\t// just the import tag, this is a root import\n\t\treturn path, \"\", true\n\tcase 2:\n\t\t// also has an alias\n\t\treturn path, vals[1], true\n\tdefault:\n\t\tlog.Println(\"warning: ignoring malformed\", importTag, \"for import\", path)\n\t\treturn \"\", \"\", false\n\t}", "\tif len(vals) == 1 {\n\t\treturn path, \"\", true\n\t}\n\tif len(vals) == 2 {\n\t\treturn path, vals[1], true\n\t}\n\tlog.Println(\"warning: ignoring malformed\", importTag, \"for import\", path)\n\treturn \"\", \"\", false", "proved"),
 ]
 
 
